@@ -83,7 +83,7 @@ Proof. vm_compute. split; reflexivity. Qed.
 
 (* the PLURAL entry point set_properties(name=...) is not covered by the uniqueness check of 6648cd3 *)
 Definition w_setprops_op : op := OSetProp (RNode (S "b")) PNames (S "n1").
-Definition flags_rename_only : flags := mkFlags true true true true true true true false true true.
+Definition flags_rename_only : flags := mkFlags true true true true true true true false true true true.
 Lemma set_properties_name_refuted :
   let g := run_hist false flags_rename_only empty_graph w_rename_hist in
   WF g /\ ~ WF (fst (step false flags_rename_only g w_setprops_op [] [])) /\
@@ -96,8 +96,8 @@ Proof.
 Qed.
 
 (* ---- round 5: three more entry points ------------------------------------------------------------------------------- *)
-(* the library at HEAD e12ad6f: every landed repair, not the proposed C07-9 / C07-10 *)
-Definition flags_head : flags := mkFlags true true true true true true true true false false.
+(* the library at HEAD a4fc126: every landed repair, not the proposed C07-9 / C07-10 *)
+Definition flags_head : flags := mkFlags true true true true true true true true false false true.
 
 (* add_link handed two Node objects: the graph layer only looks whether the ids exist, the Link joins two NetworkNodes *)
 Definition w_linknodes_op : op := OAddLink (S "l1") (Some (S "l")) (S "Patch") [S "a"; S "b"].
@@ -127,9 +127,12 @@ Proof.
   vm_compute. repeat split.
 Qed.
 
-(* add_interface through the handle of a service that is gone: the interface node is added, the owner edge fails, an
-   interface without owner stays (add_interface_sliver; the atomicity side is C09's) *)
+(* add_interface through the handle of a service that is gone, before a4fc126: the interface node is added, the owner
+   edge fails, an interface without owner stays; since a4fc126 the parent is looked up first and nothing is left *)
 Definition w_stale_op : op := OStaleAddIface (S "gone") (S "p1") (Some (S "x")) (S "TrunkPort").
+Definition flags_before_parent_first : flags := mkFlags true true true true true true true true false false false.
 Lemma stale_add_interface_refuted :
-  forall fl, ~ WF (fst (step false fl empty_graph w_stale_op [] [])) /\ snd (step false fl empty_graph w_stale_op [] []) = Some EQuery.
-Proof. intro fl. split; [apply not_WF_by_b; vm_compute; reflexivity | vm_compute; reflexivity]. Qed.
+  ~ WF (fst (step false flags_before_parent_first empty_graph w_stale_op [] [])) /\
+  snd (step false flags_before_parent_first empty_graph w_stale_op [] []) = Some EQuery /\
+  step false flags_head empty_graph w_stale_op [] [] = (empty_graph, Some EQuery).
+Proof. split; [apply not_WF_by_b; vm_compute; reflexivity | vm_compute; split; reflexivity]. Qed.
